@@ -155,8 +155,12 @@ def cviart_gate(rng):
     X = np.array(rows, dtype=float)
     validity = rng.choice([1, 2, 3])
     rho = rng.choice([0.25, 0.5, 0.75])
+    nest = rng.random() < 0.4
     with contextlib.redirect_stdout(io.StringIO()):
-        est = artlib.CVIART(artlib.FuzzyART(rho=rho, alpha=1 / 1024, beta=1.0), validity=validity)
+        base = artlib.FuzzyART(rho=rho, alpha=1 / 1024, beta=1.0)
+        if nest:          # the gate must also guard DualVigilanceART's lower-vigilance path
+            base = artlib.DualVigilanceART(base, rho_lower_bound=float(rng.choice([0.0, 0.125, 0.2])))
+        est = artlib.CVIART(base, validity=validity)
     fn = {1: M.calinski_harabasz_score, 2: M.davies_bouldin_score, 3: M.silhouette_score}[validity]
     calls = []
     orig = est.CVI_match
@@ -173,7 +177,8 @@ def cviart_gate(rng):
         calls.append((extra["index"], int(c_), bool(r), step_labs[extra["index"]], len(est.W)))
         return r
     est.CVI_match = wrapped
-    summ = {"estimator": "CVIART", "validity": validity, "rho": rho, "X": X.tolist()}
+    summ = {"estimator": "CVIART(DualVigilanceART(FuzzyART))" if nest else "CVIART(FuzzyART)", "validity": validity, "rho": rho,
+            "rho_lower_bound": float(base.rho_lower_bound) if nest else None, "X": X.tolist()}
     try:
         with np.errstate(all="ignore"):
             est.fit(X)
@@ -198,8 +203,9 @@ def cviart_gate(rng):
     for i, l in enumerate(labels):
         if i > 0 and l in labels[:i]:
             mine = [c for c in calls if c[0] == i and c[1] == l]
-            if mine and not any(c[2] for c in mine):
-                return {"signature": "CVIART/gate", "text": f"sample {i} joined cluster {l} although the validity test never passed", "replay": summ}
+            if not any(c[2] for c in mine):
+                return {"signature": "CVIART/gate", "text": f"sample {i} joined the existing cluster {l} although the validity test "
+                        + ("never passed" if mine else "was never consulted for that assignment"), "replay": summ}
     return None
 
 
@@ -223,7 +229,7 @@ def main():
             fstrs.append(s); fsumm.append(summ)
         else:
             nonrobust += 1
-    for _ in range(60 if tier == "quick" else 600):
+    for _ in range(300 if tier == "quick" else 3000):
         r = cviart_gate(rng)
         if r:
             fails.append(r)
